@@ -10,6 +10,7 @@ from ..viol import Violation, require
 ID = 'C05'
 LEVEL = 'exploration'
 RULE = (
+    'H: Hypothesis histories in which add_expr (with @ references) and the to_expr round trip run between drops, collections (node numbers re-used), swaps and reorderings. Variable names include spellings that differ from the reserved words only by case or a suffix (Ite, ITE, tRUE, TRUEx, A, E, S ...). '
     'E: every string `a op1 b op2 c`, `~ a op1 b op2 c`, `a op1 ~ b op2 c`, '
     '`Q x: a op1 b op2 c`, `a op1 Q x: b op2 c`, `\\S c/a: a op1 b op2 c` '
     'and four-operand chains over every ordered pair (triple for a seeded '
@@ -38,8 +39,28 @@ ASSUMPTIONS = [
 NAMES3 = ('a', 'b', 'c')
 
 
+HIST_ALPHA = {'build': 8, 'to_expr': 16, 'add_expr': 12, 'repeat': 6,
+              'churn': 5, 'drop': 8, 'gc': 6, 'gc_roots': 2, 'swap': 3,
+              'sift': 1, 'reorder_to': 1, 'apply': 3, 'declare': 1,
+              'undeclare': 2, 'quantify': 1}
+
+
+def _hist_nontrivial(w):
+    return w.labels.get('gc.number_reused', 0) > 0 or bool(
+        w.nontrivial & {'swap', 'sift', 'reorder_to'})
+
+
 def plan(tier, seed):
     specs = []
+    from .. import histprop as H_
+    cfgs = [dict(kind='bdd', nmax=4, init_vars=3),
+            dict(kind='bdd', nmax=5, init_vars=4),
+            dict(kind='autoref', nmax=4, init_vars=3)]
+    for s_ in range(8 if tier == 'thorough' else 4):
+        specs.append(dict(kind='history', seed=seed * 1000 + 300 + s_,
+                          cfgs=cfgs,
+                          examples=1200 if tier == 'thorough' else 300,
+                          min_len=10, max_len=40))
     for order in fix.orders(3):
         specs.append(dict(kind='pairs', order=list(order), seed=seed,
                           triples=(400 if tier == 'thorough' else 60)))
@@ -126,12 +147,26 @@ def run_pairs(spec, out):
 
 # --------------------------------------------------------------- random
 VAR_NAMES = ['x', 'y1', '_z', "w'", "Ab_2'"]
+# names that differ from the reserved words only by case / a suffix (all
+# of them ordinary identifiers by the documented grammar)
+ODD_NAMES = ['Ite', 'ITE', 'tRUE', 'fALSE', 'iTe', 'TRUEx', 'ite_', 'FALSE1',
+             'True_', 'A', 'E', 'S']
 
 
 def check_formula_case(case, managers=None):
     """case: dict(ast=, order=, ws=[...], api=, refs=[tables])."""
     import dd.autoref as _ar
     names = VAR_NAMES[:case['nvars']]
+    if case.get('odd'):
+        # replace some names by near-reserved spellings (the AST refers to
+        # variables by the names of VAR_NAMES: rename consistently)
+        ren = {}
+        for k, x in enumerate(names):
+            if (case['odd'] >> k) & 1:
+                ren[x] = ODD_NAMES[(case['odd'] + 3 * k) % len(ODD_NAMES)]
+        if len(set(ren.values())) == len(ren):
+            names = [ren.get(x, x) for x in names]
+            case = dict(case, ast=_rename_ast(case['ast'], ren))
     n = len(names)
     idx = {x: j for j, x in enumerate(names)}
     order = [names[i] for i in case['order']]
@@ -171,6 +206,20 @@ def check_formula_case(case, managers=None):
     return pr.adjacent >= 2, s
 
 
+def _rename_ast(a, ren):
+    if isinstance(a, (list, tuple)):
+        if a and a[0] == 'var':
+            return ('var', ren.get(a[1], a[1]))
+        if a and a[0] == 'quant':
+            return ('quant', a[1], [ren.get(x, x) for x in a[2]],
+                    _rename_ast(a[3], ren))
+        if a and a[0] == 'subst':
+            return ('subst', [(ren.get(p[0], p[0]), ren.get(p[1], p[1]))
+                              for p in a[1]], _rename_ast(a[2], ren))
+        return tuple(_rename_ast(x, ren) for x in a)
+    return a
+
+
 def _tuplify(x):
     if isinstance(x, list):
         return tuple(_tuplify(y) for y in x)
@@ -203,6 +252,7 @@ def run_random(spec, out):
                              min_size=nrefs, max_size=nrefs))
         return dict(kind='random', nvars=nvars, ast=ast, order=list(order),
                     ws=ws, refs=refs,
+                    odd=draw(st.sampled_from([0, 0, 1, 2, 3, 5, 6, 12, 31])),
                     api=draw(st.sampled_from(['bdd', 'autoref'])))
 
     @hypothesis.seed(spec['seed'])
@@ -362,6 +412,9 @@ def run_roundtrip(spec, out):
 
 
 def run(spec, out):
+    if spec['kind'] == 'history':
+        from .. import histprop as H_
+        return H_.run_random(spec, out, HIST_ALPHA, _hist_nontrivial)
     dict(pairs=run_pairs, random=run_random, roundtrip=run_roundtrip)[
         spec['kind']](spec, out)
 
@@ -390,6 +443,9 @@ def probes():
 
 
 def replay_into(case, out):
+    if case.get('kind') == 'history':
+        from .. import histprop as H_
+        return H_.replay_into(case, out)
     k = case['kind']
     if k == 'random':
         out.guard(case, lambda: check_formula_case(case))
